@@ -20,18 +20,18 @@ type c02Pipe struct {
 	in, out, queue string
 	inF, outF, quF *types.Var
 	nObj           types.Object
-	spawnLoop      *ast.ForStmt
+	spawnLoop      ast.Stmt
 	ops            []*chanOp
 }
 
 func c02LoadPipe(r *core.R, m *pbfModel) *c02Pipe {
 	p := &c02Pipe{m: m, info: m.info, ops: m.chanOps()}
 	for _, g := range m.gos {
-		if g.inLoop != nil {
-			p.spawnLoop = g.inLoop
+		if g.loopStmt != nil {
+			p.spawnLoop = g.loopStmt
 		}
 	}
-	p.nObj = c07CountedLoop(m.info, p.spawnLoop)
+	p.nObj = c07CountedLoopStmt(m, p.spawnLoop)
 	if p.nObj == nil {
 		r.Anchor("worker-spawning loop that runs once per worker (`for i := 0; i < n; i++` or an equivalent counted form)")
 		return nil
@@ -45,8 +45,8 @@ func c02LoadPipe(r *core.R, m *pbfModel) *c02Pipe {
 	return p
 }
 
-// sameCount reports whether o is the worker count: the bound of the spawning loop, or a parameter that is bound to it
-// at every call / go statement.
+// sameCount reports whether o is the worker count: the bound of the spawning loop, or a parameter / local that is bound
+// to it at every call / go statement, or `len(dec.S)` of a per-worker channel slice (which has one slot per worker).
 func (p *c02Pipe) sameCount(o types.Object, seen map[types.Object]bool) bool {
 	if o == nil || seen[o] {
 		return false
@@ -61,21 +61,76 @@ func (p *c02Pipe) sameCount(o types.Object, seen map[types.Object]bool) bool {
 		return false
 	}
 	for _, d := range defs {
-		if (d.kind != "arg" && d.kind != "assign") || !p.sameCount(objOf(p.info, d.e), seen) {
+		if (d.kind != "arg" && d.kind != "assign") || !p.sameCountExpr(d.e, seen) {
 			return false
 		}
 	}
 	return true
 }
 
+// sameCountExpr is sameCount for an expression: a variable, or `len(dec.S)` where S is the slice that holds the
+// workers' input or output channels (the wiring check shows it gets exactly one slot per worker).
+func (p *c02Pipe) sameCountExpr(e ast.Expr, seen map[types.Object]bool) bool {
+	if e == nil {
+		return false
+	}
+	e = ast.Unparen(e)
+	if call, ok := e.(*ast.CallExpr); ok && builtinName(p.info, call) == "len" && len(call.Args) == 1 {
+		f := fieldOf(p.info, call.Args[0])
+		return f != nil && (f == p.m.slotOf(p.in).slice || f == p.m.slotOf(p.out).slice)
+	}
+	if f := fieldOf(p.info, e); f != nil {
+		// the worker count kept in a field: every assignment of the field stores the worker count
+		n := 0
+		for _, fi := range p.m.funcs {
+			bad := false
+			ast.Inspect(fi.Decl.Body, func(x ast.Node) bool {
+				if as, ok := x.(*ast.AssignStmt); ok {
+					for i, l := range as.Lhs {
+						if fieldOf(p.info, l) == f {
+							n++
+							if len(as.Lhs) != len(as.Rhs) || as.Tok != token.ASSIGN || !p.sameCountExpr(as.Rhs[i], seen) {
+								bad = true
+							}
+						}
+					}
+				}
+				return true
+			})
+			if bad {
+				return false
+			}
+		}
+		return n > 0
+	}
+	return p.sameCount(objOf(p.info, e), seen)
+}
+
 // c02Step recognises the round-robin step `v = (v + K) % N` / `v = (K + v) % N`, also when the expression is computed by
 // a helper whose body is a single return of that form over its parameters (`v = next(v, N)`), and returns K and N.
-func c02Step(info *types.Info, st ast.Node, v types.Object) (int64, types.Object, bool) {
+func c02Step(info *types.Info, st ast.Node, v types.Object) (int64, ast.Expr, bool) {
 	as, ok := st.(*ast.AssignStmt)
-	if !ok || as.Tok != token.ASSIGN || len(as.Lhs) != 1 || len(as.Rhs) != 1 || objOf(info, as.Lhs[0]) != v {
+	if !ok || as.Tok != token.ASSIGN || len(as.Lhs) != 1 || len(as.Rhs) != 1 || c02Ref(info, as.Lhs[0]) != v {
 		return 0, nil, false
 	}
 	return c02StepExpr(info, as.Rhs[0], v, nil, 0)
+}
+
+// c02AbsStep recognises `v = K % N` with a constant K: the round-robin step by K of a counter whose value is 0.
+func c02AbsStep(info *types.Info, st ast.Node, v types.Object) (int64, ast.Expr, bool) {
+	as, ok := st.(*ast.AssignStmt)
+	if !ok || as.Tok != token.ASSIGN || len(as.Lhs) != 1 || len(as.Rhs) != 1 || c02Ref(info, as.Lhs[0]) != v {
+		return 0, nil, false
+	}
+	be, ok := ast.Unparen(as.Rhs[0]).(*ast.BinaryExpr)
+	if !ok || be.Op != token.REM {
+		return 0, nil, false
+	}
+	k, ok := constInt(info, be.X)
+	if !ok {
+		return 0, nil, false
+	}
+	return k, ast.Unparen(be.Y), true
 }
 
 // c02DeclOf finds the declaration of a function of a loaded repository package (through the package views).
@@ -93,7 +148,7 @@ func c02DeclOf(fn *types.Func) *FuncInfo {
 
 // c02StepExpr matches e against (v + K) % N; env binds the parameters of the helpers entered so far to the argument
 // expressions of the caller.
-func c02StepExpr(info *types.Info, e ast.Expr, v types.Object, env map[types.Object]ast.Expr, depth int) (int64, types.Object, bool) {
+func c02StepExpr(info *types.Info, e ast.Expr, v types.Object, env map[types.Object]ast.Expr, depth int) (int64, ast.Expr, bool) {
 	var resolve func(x ast.Expr) ast.Expr
 	resolve = func(x ast.Expr) ast.Expr {
 		x = ast.Unparen(x)
@@ -136,9 +191,9 @@ func c02StepExpr(info *types.Info, e ast.Expr, v types.Object, env map[types.Obj
 	x, y := resolve(sum.X), resolve(sum.Y)
 	var kx ast.Expr
 	switch {
-	case objOf(info, x) == v:
+	case c02Ref(info, x) == v:
 		kx = y
-	case objOf(info, y) == v:
+	case c02Ref(info, y) == v:
 		kx = x
 	default:
 		return 0, nil, false
@@ -147,13 +202,18 @@ func c02StepExpr(info *types.Info, e ast.Expr, v types.Object, env map[types.Obj
 	if !ok {
 		return 0, nil, false
 	}
-	n := objOf(info, resolve(be.Y))
+	n := resolve(be.Y)
 	return k, n, n != nil
 }
 
 // stepForm is kept for other rule files.
 func stepForm(info *types.Info, st ast.Stmt, v types.Object) (int64, types.Object, bool) {
-	return c02Step(info, st, v)
+	k, n, ok := c02Step(info, st, v)
+	if !ok {
+		return 0, nil, false
+	}
+	o := objOf(info, n)
+	return k, o, o != nil
 }
 
 // writesObj reports whether node n (a simple statement) assigns to o.
@@ -161,12 +221,12 @@ func c02WritesObj(info *types.Info, n ast.Node, o types.Object) bool {
 	switch s := n.(type) {
 	case *ast.AssignStmt:
 		for _, l := range s.Lhs {
-			if objOf(info, l) == o {
+			if c02Ref(info, l) == o {
 				return true
 			}
 		}
 	case *ast.IncDecStmt:
-		return objOf(info, s.X) == o
+		return c02Ref(info, s.X) == o
 	case *ast.ValueSpec:
 		for _, nm := range s.Names {
 			if info.Defs[nm] == o {
@@ -185,6 +245,9 @@ func c02EventPicks(info *types.Info, ev *pbfEvent, f *types.Var) []*ast.IndexExp
 		return c02PicksOpt(info, ev.n, f, true)
 	case "call", "enter":
 		var out []*ast.IndexExpr
+		if builtinName(info, ev.n.(*ast.CallExpr)) == "close" {
+			return nil // closing the channel of a slot is not a dispatch / collection
+		}
 		for _, a := range ev.n.(*ast.CallExpr).Args {
 			out = append(out, c02PicksOpt(info, a, f, true)...)
 		}
@@ -211,14 +274,33 @@ func c02PicksOpt(info *types.Info, n ast.Node, f *types.Var, skipCallArgs bool) 
 			if skipCallArgs {
 				return false
 			}
-		case *ast.IndexExpr:
-			if fieldOf(info, y.X) == f {
-				out = append(out, y)
+		case *ast.SelectorExpr, *ast.IndexExpr:
+			if ix := c02PickOf(info, y, f); ix != nil {
+				out = append(out, ix)
 			}
 		}
 		return true
 	})
 	return out
+}
+
+// c02PickOf: node x evaluates a slot of channel class f. For a class held in a slice of channels (f is that decoder
+// field) x is `dec.F[idx]`; for a class held in a slice of structs (f is the struct's field) x is `dec.L[idx].f`.
+// It returns the index expression.
+func c02PickOf(info *types.Info, x ast.Node, f *types.Var) *ast.IndexExpr {
+	switch y := x.(type) {
+	case *ast.IndexExpr:
+		if fieldOf(info, y.X) == f {
+			return y
+		}
+	case *ast.SelectorExpr:
+		if fieldOf(info, y) == f {
+			if ix, ok := ast.Unparen(y.X).(*ast.IndexExpr); ok && fieldOf(info, ix.X) != nil {
+				return ix
+			}
+		}
+	}
+	return nil
 }
 
 // selectOf returns the select statement a chosen clause belongs to.
@@ -307,8 +389,8 @@ func c02BareRecv(n ast.Node) (from ast.Expr, lhs ast.Expr) {
 func (p *c02Pipe) pickedChan(e ast.Expr, f *types.Var, seen map[types.Object]bool) bool {
 	e = ast.Unparen(e)
 	switch x := e.(type) {
-	case *ast.IndexExpr:
-		return fieldOf(p.info, x.X) == f
+	case *ast.IndexExpr, *ast.SelectorExpr:
+		return c02PickOf(p.info, x, f) != nil
 	case *ast.CallExpr:
 		if tv, ok := p.info.Types[x.Fun]; ok && tv.IsType() && len(x.Args) == 1 {
 			return p.pickedChan(x.Args[0], f, seen)
@@ -385,14 +467,14 @@ func (p *c02Pipe) counterOf(g *goSite, f *types.Var) (types.Object, bool) {
 	var o types.Object
 	ok := true
 	p.m.deepWalk(g.unit, func(s *pbfSite, n ast.Node) bool {
-		ix, isIx := n.(*ast.IndexExpr)
-		if !isIx || fieldOf(p.info, ix.X) != f || s.deferredCtx() {
+		ix := c02PickOf(p.info, n, f)
+		if ix == nil || s.deferredCtx() {
 			return true
 		}
 		if _, isConst := constInt(p.info, ix.Index); isConst {
 			return true
 		}
-		io := objOf(p.info, ix.Index)
+		io := c02Ref(p.info, ix.Index)
 		if io == nil || (o != nil && io != o) {
 			ok = false
 		}
@@ -404,6 +486,47 @@ func (p *c02Pipe) counterOf(g *goSite, f *types.Var) (types.Object, bool) {
 
 // startsAtZero: every definition of the counter other than its steps is the zero value / constant 0.
 func (p *c02Pipe) startsAtZero(o types.Object) bool {
+	if v, ok := o.(*types.Var); ok && v.IsField() {
+		// a counter kept in a decoder field starts at the zero value of the struct: every assignment in the package
+		// must be its round-robin step (or the constant 0)
+		okAll := true
+		for _, fi := range p.m.funcs {
+			ast.Inspect(fi.Decl.Body, func(x ast.Node) bool {
+				switch s := x.(type) {
+				case *ast.AssignStmt:
+					for i, l := range s.Lhs {
+						if fieldOf(p.info, l) != v {
+							continue
+						}
+						if _, _, isStep := c02Step(p.info, s, o); isStep {
+							continue
+						}
+						if _, _, isAbs := c02AbsStep(p.info, s, o); isAbs {
+							continue
+						}
+						if len(s.Lhs) == len(s.Rhs) {
+							if c, isC := constInt(p.info, s.Rhs[i]); isC && c == 0 && s.Tok == token.ASSIGN {
+								continue
+							}
+						}
+						okAll = false
+					}
+				case *ast.IncDecStmt:
+					if fieldOf(p.info, s.X) == v {
+						okAll = false
+					}
+				case *ast.KeyValueExpr:
+					if id, isID := s.Key.(*ast.Ident); isID && p.info.Uses[id] == v {
+						if c, isC := constInt(p.info, s.Value); !isC || c != 0 {
+							okAll = false
+						}
+					}
+				}
+				return true
+			})
+		}
+		return okAll
+	}
 	n := 0
 	for _, d := range p.m.defsOf(o) {
 		switch d.kind {
@@ -412,6 +535,9 @@ func (p *c02Pipe) startsAtZero(o types.Object) bool {
 		case "assign":
 			if _, _, isStep := c02Step(p.info, d.stmt, o); isStep {
 				continue
+			}
+			if _, _, isAbs := c02AbsStep(p.info, d.stmt, o); isAbs {
+				continue // `i = K % n` while i is still 0 (judged on the path by the dispatch automaton)
 			}
 			if v, ok := constInt(p.info, d.e); ok && v == 0 {
 				n++
@@ -517,7 +643,7 @@ func c02Reader(r *core.R, p *c02Pipe) {
 			if k != 0 || st&inLoop != 0 {
 				add(st, "pick", ix.Pos(), fmt.Sprintf("`%s`: a block is sent to a fixed slot instead of the slot of the round-robin counter", src(r.P.Fset, ix)))
 			}
-		} else if objOf(info, ix.Index) != iObj {
+		} else if c02Ref(info, ix.Index) != iObj {
 			add(st, "pick", ix.Pos(), fmt.Sprintf("`%s` is not indexed by the round-robin counter %s", src(r.P.Fset, ix), iObj.Name()))
 		}
 		if st&picked != 0 {
@@ -568,7 +694,10 @@ func c02Reader(r *core.R, p *c02Pipe) {
 				if ev.n != nil {
 					pos = ev.n.Pos()
 				}
-				boundary(st, pos, "the goroutine returns")
+				// (a pair sent right before the goroutine ends needs no further step: nothing is dispatched after it)
+				if st&stepped != 0 && st&emitted == 0 {
+					boundary(st, pos, "the goroutine returns")
+				}
 			}
 		case "comm":
 			if s := p.sendClause(p.selectOf(ev), p.in); s != nil {
@@ -581,9 +710,14 @@ func c02Reader(r *core.R, p *c02Pipe) {
 				}
 				return st
 			}
-			if k, nn, ok := c02Step(info, ev.n, iObj); ok {
+			k, nn, ok := c02Step(info, ev.n, iObj)
+			if !ok && st&inLoop == 0 && st&stepped == 0 {
+				// before the loop the counter still has its initial value 0: `i = K % n` is then the step by K
+				k, nn, ok = c02AbsStep(info, ev.n, iObj)
+			}
+			if ok {
 				nSteps++
-				if k != 1 || !p.sameCount(nn, map[types.Object]bool{}) {
+				if k != 1 || !p.sameCountExpr(nn, map[types.Object]bool{}) {
 					add(st, "step", ev.n.Pos(), fmt.Sprintf("`%s`: the dispatch counter must advance by 1 modulo the number of workers %s (the serializer collects with step 1)", src(r.P.Fset, ev.n), p.nObj.Name()))
 				}
 				if st&stepped != 0 {
@@ -629,7 +763,7 @@ func c02IsZeroDef(info *types.Info, n ast.Node, o types.Object) bool {
 		return false
 	}
 	for i, l := range as.Lhs {
-		if objOf(info, l) == o {
+		if c02Ref(info, l) == o {
 			v, ok := constInt(info, as.Rhs[i])
 			return ok && v == 0
 		}
@@ -653,4 +787,16 @@ func c02TouchesCounter(m *pbfModel, u *unit) bool {
 		return !found
 	})
 	return found
+}
+
+// c02Ref returns the variable an expression refers to for the purpose of round-robin counters and worker counts: a
+// local variable / parameter, or - when the state is kept in the decoder - the struct field a selector selects.
+func c02Ref(info *types.Info, e ast.Expr) types.Object {
+	if o := objOf(info, e); o != nil {
+		return o
+	}
+	if f := fieldOf(info, e); f != nil {
+		return f
+	}
+	return nil
 }
